@@ -27,6 +27,8 @@ structure SegAt (area : Bytes) (s : Seg) : Prop where
                 else slice area (s.file.recordStart + s.file.attrOff) (s.file.subOff - s.file.attrOff)
   empty   : isEmptyType s.file.type = true →
               s.file.fdata = List.replicate s.file.size 0xFF ∧ s.file.attr = List.replicate 16 0
+  legacy  : s.file.type = typeLegacyStage →
+              28 < s.file.fdata.length ∧ fromLE (slice s.file.fdata 20 4) ≤ s.file.fdata.length - 28
 
 /-- records in increasing order, each starting at or after the end of the previous one -/
 def Chain (area : Bytes) : Nat → List Seg → Prop
@@ -173,6 +175,24 @@ theorem mkSeg_inv (f : File) (s : Seg) (h : mkSeg f = .ok s) :
     rw [key]
     simp [he']
 
+/-- a listed legacy stage has a complete header and an inner size covered by a non-empty body -/
+theorem mkSeg_legacy (f : File) (s : Seg) (h : mkSeg f = .ok s) (ht : f.type = typeLegacyStage) :
+    s.file = f ∧ 28 < f.fdata.length ∧ fromLE (slice f.fdata 20 4) ≤ f.fdata.length - 28 := by
+  rw [mkSeg_eq] at h
+  have he : ¬ isEmptyType f.type = true := by rw [ht]; decide
+  rw [if_neg he, if_pos ht] at h
+  refine ⟨readLegacyStage_file f s h, ?_⟩
+  rw [readLegacyStage_eq] at h
+  by_cases c0 : f.fdata.length < 28
+  · rw [if_pos c0] at h; cases h
+  rw [if_neg c0] at h
+  by_cases c1 : f.fdata.length - 28 < fromLE (slice f.fdata 20 4)
+  · rw [if_pos c1] at h; cases h
+  rw [if_neg c1] at h
+  by_cases c2 : f.fdata.length - 28 = 0
+  · rw [if_pos c2] at h; cases h
+  omega
+
 theorem align16_ge (n : Nat) : n ≤ align16 n := by unfold align16; omega
 
 theorem segAt_of (area : Bytes) (off : Nat) (f : File) (s : Seg)
@@ -206,6 +226,10 @@ theorem segAt_of (area : Bytes) (off : Nat) (f : File) (s : Seg)
   · intro he
     rw [m2] at he
     rw [m1]; exact m8 he
+  · intro ht
+    rw [m2] at ht
+    obtain ⟨k1, k2, k3⟩ := mkSeg_legacy f s hs ht
+    rw [k1]; exact ⟨k2, k3⟩
 
 /-- everything the walk lists is a chain of stored records -/
 theorem walk_chain (area : Bytes) : ∀ (fuel off : Nat) (segs : List Seg),
